@@ -38,6 +38,14 @@ def run(ctx):
     rule_iteration(ctx, tci)
     rule_from_chords(ctx, tci)
     rule_composition(ctx)
+    # "a rejected item changes nothing / every bar but the last is full" rests on Bar.place_notes' accept / refuse
+    # effects and its gate (C13's rules on the same code); discharged here too so a defect there is a C14 report
+    from . import c13
+    bci = repo.mod(BAR).cls("Bar")
+    ctx.touch(repo.mod(BAR))
+    c13.rule_place(ctx, bci, R="R-C14-B")
+    c13.rule_gate(ctx, bci, R="R-C14-B")
+    ctx.floor("R-C14-B", 3)
     ctx.floor("R-C14-1", 5)
     ctx.floor("R-C14-2", 8)
     ctx.floor("R-C14-3", 3)
